@@ -68,6 +68,34 @@ Theorem set_defines : forall vs n v, In (n, v) (vset vs n v).
 Proof. exact vset_lookup. Qed.
 Print Assumptions set_defines.
 
+(* the store read as a map: a reference in any letter case yields the value last SET for that name, provided no stored name differs
+   from it in letter case only (names arrive upper-cased; harness/c15.py checks on every run that no store holds two names equal
+   ignoring case), and SET of one name leaves every other name's value alone *)
+Theorem set_then_reference : forall vs n v w, only_spelling vs n = true -> ci_eqs n w = true -> lookup (vset vs n v) w = Some v.
+Proof. exact lookup_vset_same_gen. Qed.
+Print Assumptions set_then_reference.
+
+Theorem set_then_reference_canonical : forall vs n v w,
+  forallb canon (map fst vs) = true -> canon n = true -> ci_eqs n w = true -> lookup (vset vs n v) w = Some v.
+Proof. exact lookup_vset_same. Qed.
+Print Assumptions set_then_reference_canonical.
+
+Theorem set_keeps_one_spelling : forall vs n v m,
+  only_spelling vs m = true -> implb (ci_eqs n m) (str_eqb n m) = true -> only_spelling (vset vs n v) m = true.
+Proof. exact vset_only_spelling. Qed.
+Print Assumptions set_keeps_one_spelling.
+
+Theorem set_frames_others : forall vs n v w, ci_eqs n w = false -> lookup (vset vs n v) w = lookup vs w.
+Proof. exact lookup_vset_other. Qed.
+Print Assumptions set_frames_others.
+
+Example set_reference_holds_somewhere :
+  let vs := [(lit "A", lit "1"); (lit "B_2", lit "x")] in
+  forallb canon (map fst vs) = true /\ canon (lit "B_2") = true /\ ci_eqs (lit "B_2") (lit "b_2") = true /\
+  lookup (vset vs (lit "B_2") (lit "y")) (lit "b_2") = Some (lit "y") /\ lookup (vset vs (lit "B_2") (lit "y")) (lit "a") = Some (lit "1").
+Proof. exact set_lookup_nonvacuous. Qed.
+Print Assumptions set_reference_holds_somewhere.
+
 Example value_with_dollars :
   inline_text [(lit "P", lit "'$HOME/x $p'"); (lit "HOME", lit "7")] (lit "select $p, $home") = inl (lit "select '$HOME/x $p', 7").
 Proof. exact value_with_dollars_l. Qed.
